@@ -45,7 +45,7 @@ impl Prop for C05Prop {
         "C05"
     }
     fn rule(&self) -> String {
-        "Streams (proptest tapes): prog / progbig = grammar-derived programs for which the generator records, for every statement of a statement list (begin/end, repeat/until, try sections, case-else, initialization), every member of a const/var/type section and of a class/record/interface body or visibility section, its first token and the token that starts the line opening the enclosing block; comments only at line edges; all layouts; x generated configuration (all widths, both begin styles, tabs/spaces). Oracle (tokens located in the output by the reference scanner, after checking C02's token equality): every marked start is the first token on its output line and indented exactly one unit deeper than the opener's line; closers (end/until/except/finally, case/try else) are first on their line at the opener's indentation; with begin_style=always_wrap every control-flow `begin` is first on its line at the controlling statement's indentation. Statements inside anonymous-routine bodies are not asserted. Non-trivial = >= 10 marks and (>= 3 nesting levels or a call with comparison / anonymous routine / generic); distinct by hash of (input, configuration)."
+        "Streams (proptest tapes): prog / progbig = grammar-derived programs for which the generator records, for every statement of a statement list (begin/end, repeat/until, try sections, case-else, initialization), every member of a const/var/type section and of a class/record/interface body or visibility section, its first token and the token that starts the line opening the enclosing block; comments only at line edges; all layouts; x generated configuration (all widths, both begin styles, tabs/spaces). Oracle (tokens located in the output by the reference scanner, after checking C02's token equality): every marked start is the first token on its output line and indented exactly one unit deeper than the opener's line; closers (end/until/except/finally, case/try else) are first on their line at the opener's indentation; with begin_style=always_wrap every control-flow `begin` is first on its line at the controlling statement's indentation; file-level keywords (unit, interface, implementation, initialization, section keywords, routine headers and their begin) start a line at indentation 0, which pins the absolute depth. Statements inside anonymous-routine bodies are not asserted. Non-trivial = >= 10 marks and (>= 3 nesting levels or a call with comparison / anonymous routine / generic); distinct by hash of (input, configuration)."
             .into()
     }
     fn assumptions(&self) -> Vec<String> {
@@ -85,6 +85,27 @@ impl Prop for C05Prop {
         for m in &ann.marks {
             let (mt, at) = (m.tok as usize, m.anchor as usize);
             if m.role == 2 && !cfg.begin_always_wrap {
+                continue;
+            }
+            if m.role == 3 {
+                // file-level keywords and routine headers: first on their line, no indentation
+                let lm = line_info(&out, toks[mt].start, cfg);
+                if !first_on_line(mt) || lm.indent_len != 0 {
+                    let line_m = out[lm.start..].lines().next().unwrap_or("");
+                    return Outcome::Fail(
+                        Failure::new(
+                            "top-level-indent",
+                            format!(
+                                "file-level {:?} (token {mt}) must start a line at indentation 0; its line is {:?}",
+                                short(&ann.lexemes[mt], 30),
+                                short(line_m, 100)
+                            ),
+                        )
+                        .fact(format!("mark-text:{}", ann.lexemes[mt].to_ascii_lowercase()))
+                        .facts(&logf),
+                    );
+                }
+                checked += 1;
                 continue;
             }
             let la = line_info(&out, toks[at].start, cfg);
